@@ -18,7 +18,7 @@ RULE = ('rules = every FREQ (upper, lower, capitalised) x {no end, COUNT, UNTIL 
         '{no INTERVAL, 1, 2, 10} x one of 40 BY-part specs (each BYxxx with one positive, one negative, several mixed '
         'values, ordinal weekdays with + and -, WKST, leap-month BYMONTH, RSCALE+SKIP, BYWEEKDAY, an X- part), each built '
         'as vRecur(**parts), vRecur(dict) and Event.add("rrule", dict), keys in upper/lower/mixed case, scalars and '
-        'lists; plus seeded random combinations of 1-6 BY parts. correspondence ops recur_new (state of the dict), '
+        'lists; plus 1500 seeded random combinations of 0-6 BY parts. correspondence ops recur_new (state of the dict), '
         'recur_to, recur_from (on the encoded texts, their lower-case form, with a trailing ";", with "=" removed, '
         'with a repeated key, with an unknown key; all sequences of length <= 3 over 24 part texts; seeded mutations), '
         'recur_rfc (Lean recogniser of the RECUR grammar vs an independent Python regex). oracle on the implementation: '
@@ -339,7 +339,7 @@ def rand_rule(rng):
 def all_rules(ctx):
     for p in systematic_rules():
         yield p
-    for _ in range(ctx.vol(600)):
+    for _ in range(ctx.vol(1500)):
         yield rand_rule(ctx.rng)
 
 
